@@ -329,6 +329,16 @@ impl DatabaseIterator {
 
     /// Picks a random number of bytes that can be read before a compaction is scheduled.
     fn random_compaction_period(&mut self) -> usize {
+        #[cfg(raindb_verif)]
+        {
+            let period = raindb_verif_rt::knob(
+                "iteration_read_bytes_period",
+                ITERATION_READ_BYTES_PERIOD as usize,
+            ) as u64;
+            if period != ITERATION_READ_BYTES_PERIOD {
+                return Uniform::from(0..(2 * period.max(1))).sample(&mut self.rng) as usize;
+            }
+        }
         self.distribution.sample(&mut self.rng) as usize
     }
 
